@@ -456,3 +456,83 @@ package models
 // are ordered before every later access by sync.Once.
 //@ func (*models.SessionStore).init
 //@   once_body
+
+// ---------------------------------------------------------------------------------------------
+// Signed latency measurement (C18)
+// ---------------------------------------------------------------------------------------------
+
+//@ spec fn answered(s *SignedLatency, id uint32) bool = id in s.PingRequests && s.PingRequests[id].End != 0
+//@ spec fn pending(s *SignedLatency, id uint32) bool = id in s.PingRequests && s.PingRequests[id].End == 0
+
+//@ func (*models.SignedLatency).sendPingRequest
+//@   property C18
+//@   event
+//@   requires s.sender != nil && s.PingRequests != nil
+//@   modifies contents(s.PingRequests), all ghost.*
+//@   allocates
+//@   ensures unchanged(s.Iteration)
+//@   emits {C18} [send(s.sender, hagallpb.Response{Type: hagallpb.MsgType_MSG_TYPE_PING_REQUEST, RequestId: bind(nid)})]
+//@   ensures {C18} pending(s, nid) && s.PingRequests[nid].Start != 0
+//@   ensures {C18} forall k: uint32 :: k != nid ==> ((k in s.PingRequests) <==> old(k in s.PingRequests)) && (k in s.PingRequests ==> s.PingRequests[k] == old(s.PingRequests[k]))
+//@   ensures {C18} !old(nid in s.PingRequests) ==> len(s.PingRequests) == old(len(s.PingRequests)) + 1
+
+//@ func (*models.SignedLatency).Start
+//@   property C18
+//@   event
+//@   requires sender != nil
+//@   modifies all models.SignedLatency.*, all ghost.*
+//@   allocates
+//@   ensures {C18} s.RequestID == requestID && s.Iteration == iteration && s.SessionID == sessionID && s.ClientID == clientID && s.WalletAddress == walletAddress && s.sender == sender && s.privateKey == privateKey
+//@   ensures {C18} len(s.PingRequests) == 1 && fresh(s.PingRequests) && exists nid: uint32 :: pending(s, nid)
+//@   emits {C18} [sendPingRequest(s)]
+
+//@ spec fn lat(s *SignedLatency, k uint32) float64 = real(truncdiv(s.PingRequests[k].End - s.PingRequests[k].Start, 1000))
+
+//@ func (*models.SignedLatency).OnPing
+//@   property C18
+//@   event
+//@   let id = pingReqID
+//@   requires pingReqID in s.PingRequests ==> s.sender != nil
+//@   requires forall k: uint32 :: pending(s, k) ==> s.Iteration >= 1
+//@   requires len(s.PingRequests) < 4294967296
+//@   modifies s.Iteration, contents(s.PingRequests), all ghost.*
+//@   allocates
+//@   behaviour unknown:
+//@     assumes !(id in s.PingRequests)
+//@     ensures {C18} result != nil && unchanged_world()
+//@     emits {C18} []
+//@   behaviour replayed:
+//@     assumes answered(s, id)
+//@     ensures {C18} result != nil && unchanged_world()
+//@     emits {C18} []
+//@   behaviour next_round:
+//@     assumes pending(s, id) && s.Iteration > 1
+//@     ensures {C18} result == nil && s.Iteration == old(s.Iteration) - 1
+//@     ensures {C18} exists nid: uint32 :: pending(s, nid) && (nid != id ==> answered(s, id) && s.PingRequests[id].Start == old(s.PingRequests[id].Start)) && (!old(nid in s.PingRequests) ==> len(s.PingRequests) == old(len(s.PingRequests)) + 1) && forall k: uint32 :: k != nid && k != id ==> ((k in s.PingRequests) <==> old(k in s.PingRequests)) && (k in s.PingRequests ==> s.PingRequests[k] == old(s.PingRequests[k]))
+//@     emits {C18} [sendPingRequest(s)]
+//@   behaviour final:
+//@     assumes pending(s, id) && s.Iteration == 1
+//@     ensures {C18} s.Iteration == 0 && answered(s, id) && len(s.PingRequests) == old(len(s.PingRequests))
+//@     ensures {C18} forall k: uint32 :: ((k in s.PingRequests) <==> old(k in s.PingRequests)) && (k != id && k in s.PingRequests ==> s.PingRequests[k] == old(s.PingRequests[k]))
+//@     emits {C18} [when result == nil =>> send(s.sender, hagallpb.SignedLatencyResponse{Type: hagallpb.MsgType_MSG_TYPE_SIGNED_LATENCY_RESPONSE, RequestId: s.RequestID, Data: bind(D), Signature: hexenc(sign(hashbytes(keccak(D)), s.privateKey))})]
+//@     ensures {C18} result == nil ==> marshaled(D, hagallpb.LatencyData).ClientId == s.ClientID && marshaled(D, hagallpb.LatencyData).SessionId == s.SessionID && marshaled(D, hagallpb.LatencyData).WalletAddress == s.WalletAddress && marshaled(D, hagallpb.LatencyData).IterationCount == len(s.PingRequests)
+//@     ensures {C18} result == nil ==> len(marshaled(D, hagallpb.LatencyData).PingRequestIds) == len(s.PingRequests) && forall j: int :: 0 <= j && j < len(marshaled(D, hagallpb.LatencyData).PingRequestIds) ==> marshaled(D, hagallpb.LatencyData).PingRequestIds[j] in s.PingRequests
+//@     ensures {C18} result == nil ==> forall k: uint32 :: k in s.PingRequests ==> exists j: int :: 0 <= j && j < len(marshaled(D, hagallpb.LatencyData).PingRequestIds) && marshaled(D, hagallpb.LatencyData).PingRequestIds[j] == k
+//@     ensures {C18} result == nil ==> marshaled(D, hagallpb.LatencyData).Min <= marshaled(D, hagallpb.LatencyData).Max && marshaled(D, hagallpb.LatencyData).Last == lat(s, id)
+//@     ensures {C18} result == nil ==> marshaled(D, hagallpb.LatencyData).Min <= marshaled(D, hagallpb.LatencyData).Last && marshaled(D, hagallpb.LatencyData).Last <= marshaled(D, hagallpb.LatencyData).Max
+//@     ensures {C18} result == nil ==> forall k: uint32 :: k in s.PingRequests ==> marshaled(D, hagallpb.LatencyData).Min <= lat(s, k) && lat(s, k) <= marshaled(D, hagallpb.LatencyData).Max
+//@     ensures {C18} result == nil && len(s.PingRequests) >= 2 ==> marshaled(D, hagallpb.LatencyData).Min <= marshaled(D, hagallpb.LatencyData).P95 && marshaled(D, hagallpb.LatencyData).P95 <= marshaled(D, hagallpb.LatencyData).Max
+//@   complete behaviours
+//@   disjoint behaviours
+//@   loop 1:
+//@     invariant real(N) * $min <= $mean && $mean <= real(N) * $max
+//@     invariant len($latencies) == N && (N == 0 || fresh($latencies))
+//@     invariant forall k: uint32 :: k in V ==> N >= 1 && k in s.PingRequests && $min <= lat(s, k) && lat(s, k) <= $max
+//@     invariant forall j: int :: 0 <= j && j < len($latencies) ==> $min <= $latencies[j] && $latencies[j] <= $max
+//@     invariant N >= 1 ==> $min <= $max
+//@   loop 2:
+//@     ghost pos
+//@     update pos[$k] = len($pingRequestIDs) - 1
+//@     invariant len($pingRequestIDs) == N
+//@     invariant forall j: int :: 0 <= j && j < len($pingRequestIDs) ==> $pingRequestIDs[j] in V
+//@     invariant forall k: uint32 :: k in V ==> k in s.PingRequests && 0 <= pos[k] && pos[k] < len($pingRequestIDs) && $pingRequestIDs[pos[k]] == k
